@@ -28,6 +28,11 @@ CLAIMED["C15"] = dict(
     note="Trusted: Lean kernel; extract.py; model checked by differential. The JWE check_header iff-theorem is pending the JWE pipeline model (its behaviour is covered by the differential and the HeaderOK oracle).",
     technique="Lean 4 proof (iff characterisation) + kernel-decided generated tables + differential",
     design="7/C15")
+CLAIMED["C10"] = dict(
+    text="Lean 4: c10_iff — the model of JWTClaimsRegistry.validate accepts a claims set iff Spec.Accept (transcribed from the property: essential present and non-null; value/values met with Python equality; aud: some requested audience among the token's; no blank unless allowed; exp/nbf/iat numbers — booleans excluded — with exp >= now-leeway, nbf/iat <= now+leeway; unrequested claims ignored), for every request, now, leeway and claims object; corollaries never-expired, never-early, time-must-be-number, error classes (only the four claim errors, MissingClaimError for a missing essential claim), and the open exp = now-leeway boundary stated as a lemma. Exact rational comparison for floats. Tie: differential over generated and (thorough) exhaustively enumerated cases against joserfc and an independent Python transcription of Accept; claims snapshot; patched clock for the default now.",
+    note="Trusted: Lean kernel; model checked by differential. Request options are assumed well typed; NaN/Infinity outside the quantifier. The exp == now-leeway boundary is left open as the property says: the oracle does not judge it (a change there breaks the correspondence and is reported without a failing input).",
+    technique="Lean 4 proof (iff characterisation of the decision logic) + differential + transcribed-spec oracle",
+    design="7/C10")
 PENDING = {}
 
 
